@@ -160,15 +160,23 @@ Proof.
   cbn [pump]. destruct (fresh_step cfg s p) as [s1 o1]. cbn [fst snd]. destruct (pump cfg s1 p k) as [s2 o2]. reflexivity.
 Qed.
 
+Lemma ahead_step_flagged cfg s p d : flagged (snd (ahead_step cfg s p d)) /\ waits_ok (snd (ahead_step cfg s p d)).
+Proof.
+  unfold ahead_step. destruct (pget p (cli s)) as [n|]; [|split; [apply out_nil_flagged|apply out_nil_waits]].
+  destruct (pget p (active s)) as [[f to]|]; [|split; [apply out_nil_flagged|apply out_nil_waits]].
+  destruct (_ && _); [split; [apply rec_step_flagged|apply rec_step_waits]|split; [apply out_nil_flagged|apply out_nil_waits]].
+Qed.
+
 (* ---------- every op: flags and waits (C07 flags, C19 one wait per emitted recovery record) ---------- *)
 Definition is_main (op : rop) : bool := match op with MainRec _ _ => true | _ => false end.
 
 Lemma rstep_flags_waits cfg s op :
   is_main op = false -> flagged (snd (rstep cfg s op)) /\ waits_ok (snd (rstep cfg s op)).
 Proof.
-  intros Hm. destruct op as [p k|p d|p o|p o|code wm lows| |ps| |p f t|cerr pcs|m|]; try discriminate; cbn [rstep].
+  intros Hm. destruct op as [p k|p d|p d|p o|p o|code wm lows| |ps| |p f t|cerr pcs|m|]; try discriminate; cbn [rstep].
   - apply pump_flagged.
   - split; [apply rec_step_flagged|apply rec_step_waits].
+  - apply ahead_step_flagged.
   - split; [apply rec_step_flagged|apply rec_step_waits].
   - unfold kerr_step. destruct ((code =? 1) || (code =? 2)); [|split; [apply out_nil_flagged|apply out_nil_waits]].
     destruct wm; [split; [apply out_nil_flagged|apply out_nil_waits]|].
